@@ -1,5 +1,7 @@
 import Tetro.Model.Render
 import Tetro.Spec.Render
+import Tetro.Lemmas.RenderPixel
+import Tetro.Lemmas.RenderTick
 /-
 C15 – rendered frames equal the DMG composition of VRAM, OAM and registers.
 
@@ -18,326 +20,11 @@ Layers (all `private` except the property statements):
 namespace Tetro.C15
 open Tetro.Model.Render Tetro.Spec.Render
 
-/-! ### bits -/
-private theorem mask80 : ∀ v : Fin 256, decide (v.val &&& 0x80 > 0) = v.val.testBit 7 := by decide +kernel
-private theorem mask40 : ∀ v : Fin 256, decide (v.val &&& 0x40 > 0) = v.val.testBit 6 := by decide +kernel
-private theorem mask20 : ∀ v : Fin 256, decide (v.val &&& 0x20 > 0) = v.val.testBit 5 := by decide +kernel
-private theorem mask10 : ∀ v : Fin 256, decide (v.val &&& 0x10 > 0) = v.val.testBit 4 := by decide +kernel
-private theorem mask08 : ∀ v : Fin 256, decide (v.val &&& 0x08 > 0) = v.val.testBit 3 := by decide +kernel
-private theorem mask04 : ∀ v : Fin 256, decide (v.val &&& 0x04 > 0) = v.val.testBit 2 := by decide +kernel
-private theorem mask02 : ∀ v : Fin 256, decide (v.val &&& 0x02 > 0) = v.val.testBit 1 := by decide +kernel
-private theorem mask01 : ∀ v : Fin 256, decide (v.val &&& 0x01 > 0) = v.val.testBit 0 := by decide +kernel
-
-private theorem enabled_eq (s : Scene) : enabled s = lcdcBit s 7 := mask80 _
-private theorem highWindowMap_eq (s : Scene) : highWindowMap s = lcdcBit s 6 := mask40 _
-private theorem windowEnabled_eq (s : Scene) : windowEnabled s = lcdcBit s 5 := mask20 _
-private theorem lowTileData_eq (s : Scene) : lowTileData s = lcdcBit s 4 := mask10 _
-private theorem highBgMap_eq (s : Scene) : highBgMap s = lcdcBit s 3 := mask08 _
-private theorem spritesEnabled_eq (s : Scene) : spritesEnabled s = lcdcBit s 1 := mask02 _
-private theorem bgEnabled_eq (s : Scene) : bgEnabled s = lcdcBit s 0 := mask01 _
-
-/-- `a & patterns[ox] > 0` is bit 7-ox -/
-private theorem pattern_bit : ∀ (a : Fin 256) (ox : Fin 8),
-    (patternAt ox.val).bind (fun p => some (decide (a.val &&& p > 0))) = some (a.val.testBit (7 - ox.val)) := by
-  decide +kernel
-
-private theorem planePixel_eq (a b : Bool) : planePixel a b = a.toNat + 2 * b.toNat := by
-  cases a <;> cases b <;> rfl
-
-private theorem tileColour_le (s : Scene) (base col row : Nat) : tileColour s base col row ≤ 3 := by
-  unfold tileColour
-  have h1 := Bool.toNat_le ((vbyte s (base + 2 * row)).testBit (7 - col))
-  have h2 := Bool.toNat_le ((vbyte s (base + 2 * row + 1)).testBit (7 - col))
-  omega
-
-/-! ### tile fetch -/
-private theorem readTile_eq (s : Scene) (n ox oy : Nat) (hn : n < 512) (hx : ox < 8) (hy : oy < 8) :
-    readTilePixel s (n : Int) ox oy = some (tileColour s (16 * n) ox oy) := by
-  unfold readTilePixel vramAt mul8
-  have e1 : ((n : Int) * 16 + ((oy * 2 % 256 : Nat) : Int)).toNat = 16 * n + 2 * oy := by omega
-  have e2 : ((n : Int) * 16 + ((oy * 2 % 256 : Nat) : Int) + 1).toNat = 16 * n + 2 * oy + 1 := by omega
-  have c1 : 0 ≤ (n : Int) * 16 + ((oy * 2 % 256 : Nat) : Int) ∧
-      (n : Int) * 16 + ((oy * 2 % 256 : Nat) : Int) < 0x2000 := by omega
-  have c2 : 0 ≤ (n : Int) * 16 + ((oy * 2 % 256 : Nat) : Int) + 1 ∧
-      (n : Int) * 16 + ((oy * 2 % 256 : Nat) : Int) + 1 < 0x2000 := by omega
-  simp only [if_pos c1, if_pos c2, e1, e2, Option.bind_some]
-  have pa := pattern_bit (s.vram (16 * n + 2 * oy)) ⟨ox, hx⟩
-  have pb := pattern_bit (s.vram (16 * n + 2 * oy + 1)) ⟨ox, hx⟩
-  simp only [] at pa pb
-  cases hp : patternAt ox with
-  | none => simp [hp] at pa
-  | some p =>
-    simp only [hp, Option.bind_some, Option.some.injEq] at pa pb ⊢
-    rw [pa, pb, planePixel_eq]
-    rfl
-
-/-- the addressing mode: Go `tileNumber*16` is the documented tile data offset, and it stays inside VRAM -/
-private theorem tileNumberOf_eq (s : Scene) (b : Fin 256) :
-    ∃ n : Nat, tileNumberOf s b.val = (n : Int) ∧ n < 384 ∧ 16 * n = bgTileBase s b.val := by
-  unfold tileNumberOf bgTileBase int8
-  rw [lowTileData_eq]
-  cases lcdcBit s 4
-  · by_cases h : b.val < 128
-    · refine ⟨256 + b.val, ?_, by omega, ?_⟩
-      · have : b.val % 256 < 128 := by omega
-        simp only [this, if_true]; simp; omega
-      · simp [h]; omega
-    · refine ⟨b.val, ?_, by omega, ?_⟩
-      · have : ¬ b.val % 256 < 128 := by omega
-        simp only [this, if_false]; simp; omega
-      · simp [h]; omega
-  · exact ⟨b.val, by simp, by omega, by simp⟩
-
-/-! ### tile map -/
-private theorem mapPixel_eq (s : Scene) (sel : Bool) (px py : Nat) (hx : px < 256) (hy : py < 256) :
-    mapPixel s (if sel then 0x1c00 else 0x1800) px py = some (mapColour s sel px py) := by
-  unfold mapPixel vramAt
-  have hidx : (((if sel then 0x1c00 else 0x1800) + (32 * (py / 8) + px / 8) % 65536) % 65536 : Nat)
-      = mapBase sel + 32 * (py / 8) + px / 8 := by
-    unfold mapBase; cases sel <;> simp <;> omega
-  have hlt : mapBase sel + 32 * (py / 8) + px / 8 < 0x2000 := by
-    unfold mapBase; cases sel <;> simp <;> omega
-  simp only [hidx]
-  have c : 0 ≤ ((mapBase sel + 32 * (py / 8) + px / 8 : Nat) : Int) ∧
-      ((mapBase sel + 32 * (py / 8) + px / 8 : Nat) : Int) < 0x2000 := by omega
-  simp only [if_pos c, Option.bind_some, Int.toNat_natCast]
-  obtain ⟨n, hn, hlt', hbase⟩ := tileNumberOf_eq s (s.vram (mapBase sel + 32 * (py / 8) + px / 8))
-  rw [hn, readTile_eq s n _ _ (by omega) (Nat.mod_lt _ (by omega)) (Nat.mod_lt _ (by omega))]
-  unfold mapColour vbyte
-  rw [hbase]
-
-/-! ### background and window -/
-private theorem findBackground_eq (s : Scene) (x y : Nat) :
-    findBackgroundPixel s x y = some (bgColour s x y) := by
-  unfold findBackgroundPixel bgColour add8
-  rw [highBgMap_eq]
-  exact mapPixel_eq s _ _ _ (Nat.mod_lt _ (by omega)) (Nat.mod_lt _ (by omega))
-
-private theorem windowHit_eq (s : Scene) (x y : Nat) (hw : lcdcBit s 5 = true → 7 ≤ s.wx.val) :
-    windowHit s x y = windowCovers s x y := by
-  unfold windowHit windowCovers sub8
-  rw [windowEnabled_eq]
-  cases h5 : lcdcBit s 5
-  · simp
-  · have := hw h5
-    have e : (s.wx.val + 256 - 7 % 256) % 256 = s.wx.val - 7 := by omega
-    simp only [e, Bool.true_and]
-    congr 1
-    congr 1
-    simp only [decide_eq_decide]
-    omega
-
-private theorem findWindow_eq (s : Scene) (x y : Nat) (hx : x < 256) (hy : y < 256)
-    (h : windowCovers s x y = true) (h7 : 7 ≤ s.wx.val) :
-    findWindowPixel s (sub8 x (sub8 s.wx.val 7)) (sub8 y s.wy.val) = some (windowColour s x y) := by
-  unfold windowCovers at h
-  simp only [Bool.and_eq_true, decide_eq_true_eq] at h
-  obtain ⟨⟨⟨⟨_, h166⟩, _⟩, hxw⟩, hyw⟩ := h
-  have ex : sub8 x (sub8 s.wx.val 7) = ((x : Int) - ((s.wx.val : Int) - 7)).toNat := by
-    unfold sub8; omega
-  have ey : sub8 y s.wy.val = y - s.wy.val := by unfold sub8; omega
-  unfold findWindowPixel windowColour
-  rw [highWindowMap_eq, ex, ey]
-  exact mapPixel_eq s _ _ _ (by omega) (by omega)
-
-private theorem bgWin_eq (s : Scene) (x y : Nat) (hx : x < 256) (hy : y < 256)
-    (h0 : lcdcBit s 0 = true) (hw : lcdcBit s 5 = true → 7 ≤ s.wx.val) :
-    bgWinPixel s x y = some (bgWinColour s x y) := by
-  unfold bgWinPixel bgWinColour
-  rw [windowHit_eq s x y hw, bgEnabled_eq, h0]
-  cases hc : windowCovers s x y
-  · simp [findBackground_eq]
-  · have h5 : lcdcBit s 5 = true := by
-      unfold windowCovers at hc; simp only [Bool.and_eq_true] at hc; exact hc.1.1.1.1
-    simp [findWindow_eq s x y hx hy hc (hw h5)]
-
-/-! ### palettes -/
-private theorem bgShade_eq (s : Scene) (c : Nat) (hc : c ≤ 3) :
-    bgShade s c = some (shade s.bgp.val c) := by
-  have key : ∀ v : Fin 256, ∀ c : Fin 4,
-      ([v.val &&& 3, (v.val >>> 2) &&& 3, (v.val >>> 4) &&& 3, (v.val >>> 6) &&& 3][c.val]?).bind greyAt
-        = some ((v.val >>> (2 * c.val)) % 4) := by decide +kernel
-  exact key s.bgp ⟨c, by omega⟩
-
-private theorem objShade_eq (s : Scene) (acc : ObjAcc) (h1 : 1 ≤ acc.pixel) (h3 : acc.pixel ≤ 3) :
-    objShade s acc = some (shade (if acc.pal1 then s.obp1.val else s.obp0.val) acc.pixel) := by
-  have k1 : ∀ v : Fin 256, ((obpColour v)[1]?).bind greyAt = some ((v.val >>> (2 * 1)) % 4) := by decide +kernel
-  have k2 : ∀ v : Fin 256, ((obpColour v)[2]?).bind greyAt = some ((v.val >>> (2 * 2)) % 4) := by decide +kernel
-  have k3 : ∀ v : Fin 256, ((obpColour v)[3]?).bind greyAt = some ((v.val >>> (2 * 3)) % 4) := by decide +kernel
-  unfold objShade shade
-  have hc : acc.pixel = 1 ∨ acc.pixel = 2 ∨ acc.pixel = 3 := by omega
-  rcases hc with h | h | h <;> rw [h] <;> cases acc.pal1 <;> simp only [Bool.false_eq_true, if_false, if_true]
-  · exact k1 _
-  · exact k1 _
-  · exact k2 _
-  · exact k2 _
-  · exact k3 _
-  · exact k3 _
-
-/-! ### objects -/
-
 /-- `checkOverlappingSprite` decides exactly "screen line ly meets an 8-line object whose Y byte is Y",
     for every Y byte – in particular for Y in 1..15 (object clipped by the top edge) -/
 theorem c15_overlaps (Y : Fin 256) (ly : Nat) :
-    overlapTest Y.val ly = (decide ((Y.val : Int) - 16 ≤ (ly : Int)) && decide ((ly : Int) < (Y.val : Int) - 16 + 8)) := by
-  unfold overlapTest
-  congr 1 <;> simp only [decide_eq_decide] <;> omega
-
-private theorem overlaps_onLine (s : Scene) (ly i : Nat) (h8 : lcdcBit s 2 = false) :
-    modelOverlaps s ly i = onLine s (obj s i) ly := by
-  unfold modelOverlaps onLine objHeight obj
-  rw [h8, Nat.mul_comm i 4, c15_overlaps]
-  rfl
-
-/-- object i shows an opaque pixel at (x,y): the predicate whose first witness in OAM order the code draws -/
-def hit (s : Scene) (x y : Nat) (i : Nat) : Bool :=
-  (inColumns (obj s i) x && objColour s (obj s i) x y != 0) && onLine s (obj s i) y
-
-/-- what the object loop leaves in its three locals when it stops at object i -/
-def accOf (s : Scene) (x y : Nat) (i : Nat) : ObjAcc :=
-  { pixel := objColour s (obj s i) x y, behind := (obj s i).attr.testBit 7, pal1 := (obj s i).attr.testBit 4 }
-
-private theorem oamAt_eq (s : Scene) (off : Nat) (h : off < 160) : oamAt s off = some (s.oam off).val := by
-  unfold oamAt; exact if_pos h
-
-private theorem objCandidate_eq (s : Scene) (i x y : Nat) (hi : i < 40) (hx : x < 160) (hy : y < 144)
-    (h8 : lcdcBit s 2 = false) (hcol : inColumns (obj s i) x = true) (hline : onLine s (obj s i) y = true) :
-    objCandidate s i x y (obj s i).x = some (accOf s x y i) := by
-  unfold inColumns at hcol
-  unfold onLine objHeight at hline
-  rw [h8] at hline
-  simp only [Bool.and_eq_true, decide_eq_true_eq, Bool.false_eq_true, if_false] at hcol hline
-  unfold objCandidate
-  rw [oamAt_eq s (i * 4) (by omega), Option.bind_some, oamAt_eq s (i * 4 + 2) (by omega), Option.bind_some,
-    oamAt_eq s (i * 4 + 3) (by omega), Option.bind_some]
-  unfold objCandidateBody
-  rw [mask80, mask40, mask20, mask10]
-  have eY : (s.oam (i * 4)).val = (obj s i).y := by unfold obj; rw [Nat.mul_comm]
-  have eT : (s.oam (i * 4 + 2)).val = (obj s i).tile := by unfold obj; rw [Nat.mul_comm]
-  have eA : (s.oam (i * 4 + 3)).val = (obj s i).attr := by unfold obj; rw [Nat.mul_comm]
-  have bx : (obj s i).x < 256 := by unfold obj; exact (s.oam _).isLt
-  have bY : (obj s i).y < 256 := by unfold obj; exact (s.oam _).isLt
-  have bT : (obj s i).tile < 256 := by unfold obj; exact (s.oam _).isLt
-  rw [eY, eT, eA]
-  have ecol : sub8 x (obj s i).x % 8 = ((x : Int) - (((obj s i).x : Int) - 8)).toNat := by
-    unfold sub8; omega
-  have erow : sub8 y (obj s i).y % 8 = ((y : Int) - (((obj s i).y : Int) - 16)).toNat := by
-    unfold sub8; omega
-  have ecol8 : ((x : Int) - (((obj s i).x : Int) - 8)).toNat < 8 := by omega
-  have erow8 : ((y : Int) - (((obj s i).y : Int) - 16)).toNat < 8 := by omega
-  have f7 : ∀ k, k < 8 → sub8 7 k = 7 - k := by intro k hk; unfold sub8; omega
-  rw [ecol, erow]
-  dsimp only
-  rw [f7 _ ecol8, f7 _ erow8]
-  rw [readTile_eq s (obj s i).tile _ _ (by omega)
-      (by split <;> omega) (by split <;> omega)]
-  simp only [Option.bind_some]
-  unfold accOf objColour objHeight
-  rw [h8]
-  simp
-
-private theorem objLoop_spec (s : Scene) (x y : Nat) (hx : x < 160) (hy : y < 144) (h8 : lcdcBit s 2 = false) :
-    ∀ (l : List Nat), (∀ i ∈ l, i < 40) → ∀ acc : ObjAcc, acc.pixel = 0 →
-      ∃ r, objLoop s (modelOverlaps s y) x y l acc = some r ∧
-        (match l.find? (hit s x y) with
-         | some i => r = accOf s x y i
-         | none => r.pixel = 0) := by
-  intro l
-  induction l with
-  | nil => intro _ acc h; exact ⟨acc, rfl, by simpa using h⟩
-  | cons i rest ih =>
-    intro hl acc hacc
-    have hi : i < 40 := hl i (by simp)
-    have hrest : ∀ j ∈ rest, j < 40 := fun j hj => hl j (by simp [hj])
-    unfold objLoop
-    rw [overlaps_onLine s y i h8, List.find?_cons]
-    have eX : oamAt s (i * 4 + 1) = some (obj s i).x := by
-      rw [oamAt_eq s _ (by omega)]; unfold obj; rw [Nat.mul_comm]
-    cases hline : onLine s (obj s i) y
-    · -- not on the line: skipped
-      have hh : hit s x y i = false := by unfold hit; simp [hline]
-      simp only [hh, Bool.not_false, if_true]
-      exact ih hrest acc hacc
-    · simp only [Bool.not_true, Bool.false_eq_true, if_false, eX]
-      have bx : (obj s i).x < 256 := by unfold obj; exact (s.oam _).isLt
-      by_cases hcol : inColumns (obj s i) x = true
-      · have hc : add8 x 8 ≥ (obj s i).x ∧ x < (obj s i).x := by
-          unfold inColumns at hcol
-          simp only [Bool.and_eq_true, decide_eq_true_eq] at hcol
-          unfold add8; omega
-        rw [if_pos hc, objCandidate_eq s i x y hi hx hy h8 hcol hline]
-        by_cases hp : (accOf s x y i).pixel > 0
-        · have hh : hit s x y i = true := by
-            unfold hit; unfold accOf at hp
-            simp only [hcol, hline, Bool.true_and, Bool.and_true, bne_iff_ne, ne_eq]
-            simp only [] at hp; omega
-          simp only [hp, if_true, hh]
-          exact ⟨_, rfl, rfl⟩
-        · have hh : hit s x y i = false := by
-            unfold hit; unfold accOf at hp
-            simp only [] at hp
-            have : objColour s (obj s i) x y = 0 := by omega
-            simp [this]
-          simp only [hp, if_false, hh]
-          exact ih hrest _ (by omega)
-      · have hc : ¬ (add8 x 8 ≥ (obj s i).x ∧ x < (obj s i).x) := by
-          unfold inColumns at hcol
-          simp only [Bool.and_eq_true, decide_eq_true_eq] at hcol
-          unfold add8; omega
-        have hh : hit s x y i = false := by
-          unfold hit
-          have : inColumns (obj s i) x = false := by simpa using hcol
-          simp [this]
-        rw [if_neg hc]
-        simp only [hh]
-        exact ih hrest acc hacc
-
-/-! ### the documented selection and priority collapse to "first hit in OAM order" under the restrictions -/
-private theorem best_mem (s : Scene) : ∀ (l : List Nat) (j : Nat), best s l = some j → j ∈ l := by
-  intro l
-  induction l with
-  | nil => intro j h; simp [best] at h
-  | cons i rest ih =>
-    intro j h
-    unfold best at h
-    cases hb : best s rest with
-    | none => simp [hb] at h; simp [h]
-    | some k =>
-      simp only [hb] at h
-      split at h
-      · simp at h; subst h; exact List.mem_cons_of_mem _ (ih k hb)
-      · simp at h; simp [h]
-
-private theorem best_sorted (s : Scene) : ∀ (l : List Nat),
-    List.Pairwise (fun i j => beats s j i = false) l → best s l = l.head? := by
-  intro l
-  induction l with
-  | nil => intro _; rfl
-  | cons i rest ih =>
-    intro hp
-    unfold best
-    cases hb : best s rest with
-    | none => rfl
-    | some k =>
-      have hk := best_mem s rest k hb
-      have := (List.pairwise_cons.mp hp).1 k hk
-      simp [this]
-
-private theorem topObject_eq (s : Scene) (x y : Nat) (h10 : atMostTen s y) (hsort : orderedByX s y) :
-    topObject s x y = (List.range 40).find? (hit s x y) := by
-  unfold topObject lineObjects
-  rw [List.take_of_length_le h10, List.filter_filter]
-  rw [best_sorted, List.head?_filter]
-  · rfl
-  · rw [List.pairwise_filter]
-    refine List.Pairwise.imp_of_mem ?_ List.pairwise_lt_range
-    intro a b ha hb hab pa pb
-    have hb40 : b < 40 := List.mem_range.mp hb
-    simp only [Bool.and_eq_true] at pa pb
-    have := hsort a b hab hb40 pa.2 pb.2
-    unfold beats
-    simp only [Bool.or_eq_false_iff, Bool.and_eq_false_iff, decide_eq_false_iff_not]
-    omega
+    overlapTest Y.val ly = (decide ((Y.val : Int) - 16 ≤ (ly : Int)) && decide ((ly : Int) < (Y.val : Int) - 16 + 8)) :=
+  overlapTest_eq Y ly
 
 /-! ### the pixel theorem -/
 
@@ -399,5 +86,152 @@ theorem c15_pixel (s : Scene) (x y : Nat) (hx : x < 160) (hy : y < 144)
         have c3 : ¬ ((obj s i).attr.testBit 7 = true ∧ bgWinColour s x y ≠ 0) := by simp [hb]
         simp only [if_pos c1, if_neg c3, hsh]
         rfl
+
+/-- `renderPixel` never panics: for EVERY scene (no restriction at all), every content of `spriteOverlaps`
+    and every pair of 8-bit coordinates all VRAM / OAM / palette / pattern indices are in range. -/
+theorem c15_no_panic (s : Scene) (ov : Nat → Bool) (x y : Nat) : ∃ v, pixelWith s ov x y = some v :=
+  pixelWith_some s ov x y
+
+/-- the executable form of the ordering restriction (used by the driver to tag lines) is the stated one -/
+theorem c15_ordered_iff (s : Scene) (y : Nat) : orderedByXb s y = true ↔ orderedByX s y := by
+  unfold orderedByXb orderedByX
+  simp only [List.all_eq_true, List.mem_range, Bool.or_eq_true, Bool.not_eq_true', Bool.and_eq_false_iff,
+    decide_eq_true_eq]
+  constructor
+  · intro h i j hij hj hi hjl
+    rcases h j hj i hij with h | h
+    · rcases h with h | h
+      · rw [hi] at h; cases h
+      · rw [hjl] at h; cases h
+    · exact h
+  · intro h j hj i hij
+    cases hi : onLine s (obj s i) y
+    · exact Or.inl (Or.inl rfl)
+    · cases hjl : onLine s (obj s j) y
+      · exact Or.inl (Or.inr rfl)
+      · exact Or.inr (h i j hij hj hi hjl)
+
+/-- C15, line level: overlaps evaluated for line y, then its 160 pixels = the DMG composition of that line -/
+theorem c15_line (s : Scene) (y : Nat) (hy : y < 144)
+    (hr : regsInProperty s) (h10 : atMostTen s y) (hsort : orderedByX s y) :
+    renderLine s y = (List.range 160).map fun x => some (dmgPixel s x y) := by
+  unfold renderLine
+  apply List.map_congr_left
+  intro x hx
+  exact c15_pixel s x y (List.mem_range.mp hx) hy hr h10 hsort
+
+/-- C15, frame assembly (tick level).  With the scene held constant and the LCD on, run EndMachineCycle from
+    any state at the start of line 0 (tick counter 0; mode 1 = coming from v-blank, or mode 2 = just switched
+    on, in which case the first line is two ticks short) – whatever `spriteOverlaps` and the old frame contain.
+    Then no call panics, after one frame (17556 calls, 17554 after switch-on) the counter is 0 again in mode 1
+    (so the statement applies to every following frame as well), and every pixel of the emitted frame is
+    `modelPixel`: all 40 objects were tested against line y at ticks 0..19 of line y, before the first pixel
+    of line y was rendered at tick 20. -/
+theorem c15_frame (s : Scene) (hon : lcdcBit s 7 = true) (st0 : PState)
+    (h0 : st0.ticks = 0) (hm : st0.mode = 1 ∨ st0.mode = 2) :
+    ∃ st, run s (if st0.firstLine then 17554 else 17556) st0 = some st ∧
+      st.ticks = 0 ∧ st.mode = 1 ∧ st.firstLine = false ∧
+      ∀ x y, x < 160 → y < 144 → getPix st.frame x y = modelPixel s x y := by
+  have hen : enabled s = true := by rw [enabled_eq]; exact hon
+  have inv0 : TickInv s st0.firstLine 0 st0 := by
+    constructor
+    · rw [h0]
+    · rfl
+    · intro _; omega
+    · unfold modeOK; rw [if_pos rfl]; exact hm
+    · intro i _ _ h; omega
+    · intro x y _ _ h; omega
+  have hN : cnt st0.firstLine (if st0.firstLine then 17554 else 17556) = 17556 := by
+    cases st0.firstLine <;> simp [cnt]
+  obtain ⟨st, hr, inv⟩ := run_inv s hen st0.firstLine st0 inv0 (if st0.firstLine then 17554 else 17556)
+    (by rw [hN]; omega)
+  rw [hN] at inv
+  refine ⟨st, hr, ?_, ?_, ?_, ?_⟩
+  · rw [inv.hticks]
+  · have := inv.hmode
+    unfold modeOK at this
+    rw [if_neg (by omega), if_neg (by omega), if_neg (by omega)] at this
+    exact this
+  · rw [inv.hfl]; cases st0.firstLine <;> simp
+  · intro x y hx hy
+    exact inv.hfr x y hx hy (by omega)
+
+/-- C15 as stated: for a scene that meets the property's restrictions on every line, the frame emitted after
+    one full frame of EndMachineCycle calls is the DMG composition, pixel for pixel. -/
+theorem c15_frame_dmg (s : Scene) (hr : regsInProperty s)
+    (hlines : ∀ y, y < 144 → atMostTen s y ∧ orderedByX s y)
+    (st0 : PState) (h0 : st0.ticks = 0) (hm : st0.mode = 1 ∨ st0.mode = 2) :
+    ∃ st, run s (if st0.firstLine then 17554 else 17556) st0 = some st ∧
+      ∀ x y, x < 160 → y < 144 → getPix st.frame x y = some (dmgPixel s x y) := by
+  obtain ⟨st, hrun, _, _, _, hpix⟩ := c15_frame s hr.1 st0 h0 hm
+  refine ⟨st, hrun, ?_⟩
+  intro x y hx hy
+  rw [hpix x y hx hy]
+  exact c15_pixel s x y hx hy hr (hlines y hy).1 (hlines y hy).2
+
+/-! ### non-vacuity: a concrete scene inside the property's restrictions that exercises every layer -/
+
+/-- LCDC=F3 (LCD, window map 9C00, window, 8000 addressing, BG map 9800, 8x8, objects, BG), window at
+    screen (80,72); tile 0 blank, tile 1 solid colour 3, tile 2 = columns 1,1,3,3,2,2,0,0 on every row except
+    row 7 which is blank; BG map alternates tiles 0/1 by column, window map is all tile 2;
+    objects: #0 Y=12 X=20 (clipped by the top edge), #1 Y=40 X=4 x-flipped (clipped by the left edge),
+    #2 Y=60 X=30 solid, OBP1, behind the background, #3 Y=100 X=100 y-flipped, OBP1, over the window,
+    #4 Y=140 X=164 (clipped by the right edge), #5 Y=156 X=90 (clipped by the bottom edge) -/
+def exScene : Scene :=
+  { lcdc := 0xF3, scx := 0, scy := 0, wx := 87, wy := 72, bgp := 0xE5, obp0 := 0xD2, obp1 := 0x1B,
+    vram := fun i =>
+      if 16 ≤ i ∧ i < 32 then 0xFF
+      else if 32 ≤ i ∧ i < 46 then (if i % 2 = 0 then 0xF0 else 0x3C)
+      else if 0x1800 ≤ i ∧ i < 0x1C00 then (if i % 2 = 0 then 0 else 1)
+      else if 0x1C00 ≤ i ∧ i < 0x2000 then 2
+      else 0,
+    oam := fun i =>
+      match i with
+      | 0 => 12 | 1 => 20 | 2 => 2 | 3 => 0x00
+      | 4 => 40 | 5 => 4 | 6 => 2 | 7 => 0x20
+      | 8 => 60 | 9 => 30 | 10 => 1 | 11 => 0x90
+      | 12 => 100 | 13 => 100 | 14 => 2 | 15 => 0x50
+      | 16 => 140 | 17 => 164 | 18 => 2 | 19 => 0x00
+      | 20 => 156 | 21 => 90 | 22 => 2 | 23 => 0x00
+      | _ => 0 }
+
+/-- the scene satisfies the hypotheses of `c15_pixel` / `c15_frame_dmg` on every line -/
+example : regsInProperty exScene := by decide
+example : ∀ y, y < 144 → atMostTen exScene y ∧ orderedByXb exScene y = true := by decide +kernel
+/-- object 0 (Y=12) is met by lines 0..3 although its top is above the screen; object 5 by lines 140..143 -/
+example : modelOverlaps exScene 0 0 = true ∧ modelOverlaps exScene 3 0 = true ∧ modelOverlaps exScene 4 0 = false ∧
+    modelOverlaps exScene 139 5 = false ∧ modelOverlaps exScene 143 5 = true := by decide +kernel
+/-- top-clipped object: line 0 shows tile row 4 (colours 1,1,3,3,2,2 through OBP0=D2, then BG colour 0) -/
+example : (List.range 8).map (fun k => modelPixel exScene (12 + k) 0)
+    = [some 0, some 0, some 3, some 3, some 1, some 1, some 1, some 1] := by decide +kernel
+example : (List.range 8).map (fun k => dmgPixel exScene (12 + k) 0) = [0, 0, 3, 3, 1, 1, 1, 1] := by decide +kernel
+/-- left-clipped, x-flipped object at X=4: only its last four columns (tile columns 3,2,1,0) are on screen -/
+example : (List.range 5).map (fun k => modelPixel exScene k 24)
+    = [some 3, some 3, some 0, some 0, some 1] := by decide +kernel
+/-- behind-background object (OBP1: colour 3 → shade 0): visible over BG colour 0 (x=22,23), hidden by BG
+    colour 3 (x=24..29); x=21 is plain BG colour 0 (shade 1) -/
+example : (List.range 9).map (fun k => modelPixel exScene (21 + k) 44)
+    = [some 1, some 0, some 0, some 3, some 3, some 3, some 3, some 3, some 3] := by decide +kernel
+/-- window from (80,72): BG tile 1 up to x=79, then window tile 2 -/
+example : (List.range 8).map (fun k => modelPixel exScene (76 + k) 72)
+    = [some 3, some 3, some 3, some 3, some 1, some 1, some 3, some 3] := by decide +kernel
+/-- y-flipped OBP1 object over the window: its line 91 shows tile row 0 (x=94,95: colour 3 → shade 0) while its
+    line 84 shows the blank tile row 7, so the window is seen through it -/
+example : (List.range 6).map (fun k => modelPixel exScene (92 + k) 91)
+    = [some 2, some 2, some 0, some 0, some 1, some 1] := by decide +kernel
+example : (List.range 6).map (fun k => modelPixel exScene (92 + k) 84)
+    = [some 2, some 2, some 1, some 1, some 1, some 1] := by decide +kernel
+/-- right-edge object (X=164: columns 0..3 on screen) and bottom-edge object (Y=156: rows 0..3 on screen) -/
+example : (List.range 6).map (fun k => modelPixel exScene (154 + k) 124)
+    = [some 3, some 3, some 0, some 0, some 3, some 3] := by decide +kernel
+example : (List.range 10).map (fun k => modelPixel exScene (80 + k) 143)
+    = [some 1, some 1, some 0, some 0, some 3, some 3, some 1, some 1, some 1, some 1] := by decide +kernel
+/-- and on whole lines the model agrees with the specification, as `c15_pixel` says -/
+example : ∀ x, x < 160 → modelPixel exScene x 44 = some (dmgPixel exScene x 44) := by decide +kernel
+example : ∀ x, x < 160 → modelPixel exScene x 91 = some (dmgPixel exScene x 91) := by decide +kernel
+/-- start states of `c15_frame`: the state `ppu.enable()` leaves (arbitrary overlaps and old frame) -/
+example (ov : Vector Bool 40) (fr : Vector Nat (160 * 144)) :
+    (afterEnable ov fr).ticks = 0 ∧ ((afterEnable ov fr).mode = 1 ∨ (afterEnable ov fr).mode = 2) :=
+  ⟨rfl, Or.inr rfl⟩
 
 end Tetro.C15
